@@ -119,14 +119,17 @@ def merge_blocks(spec, c, nmerges=2):
     a, b = items[i], items[j]
     # generator order == dependency order is not recoverable after the shuffle of
     # items; the name carries the creation index: lower index first
-    def num(it):
+    def parts(it):
+      # [(creation index, stmts)]: generator order == dependency order, the name carries the index
+      if "parts" in it:
+        return it["parts"]
       try:
-        return int(it["name"][2:].split("_")[0])
+        return [[int(it["name"][2:]), it["stmts"]]]
       except ValueError:
-        return 0
-    first, second = (a, b) if num(a) <= num(b) else (b, a)
-    merged = {"k": "comb", "name": "%s_%s" % (first["name"], second["name"]),
-              "stmts": first["stmts"] + second["stmts"]}
+        return [[0, it["stmts"]]]
+    ps = sorted(parts(a) + parts(b), key=lambda x: x[0])
+    merged = {"k": "comb", "name": "up" + "_".join(str(x[0]) for x in ps),
+              "stmts": [st for _, sts in ps for st in sts], "parts": ps}
     items[i] = merged
     del items[j]
     done += 1
